@@ -11,3 +11,6 @@ import WowVerif.Props.C19
 #print axioms Wv.C19.archive_name_within_buffer
 #print axioms Wv.C19.file_name_within_max_path
 #print axioms Wv.C19.find_data_within_array
+#print axioms Wv.C19.close_leaves_nothing
+#print axioms Wv.C19.old_close_order_leaves_file_handle
+#print axioms Wv.C19.search_without_recheck_leaves_handle
